@@ -227,9 +227,18 @@ def space(tier):
 
     def rnd(j, rng):
         alt = rng.choice(ALTS) if rng.random() < 0.9 else {"name": "genuine"}
-        return {"config": {"version": 3, "cred_form": rng.choice(["hex", "bytes"]),
-                           "token": rand_bytes(rng, 64).hex(), "key": rand_bytes(rng, 32).hex(),
-                           "device_id": rand_id(rng)}, "scenario": rng.choice(["fresh", "stored"]), "alt": alt,
-                "expired": rng.random() < 0.4}
+        p = {"config": {"version": 3, "cred_form": rng.choice(["hex", "bytes"]),
+                        "token": rand_bytes(rng, 64).hex(), "key": rand_bytes(rng, 32).hex(),
+                        "device_id": rand_id(rng)}, "scenario": rng.choice(["fresh", "stored"]), "alt": alt,
+             "expired": rng.random() < 0.4}
+        if rng.random() < 0.06:
+            # raw token / key whose every byte happens to be printable: hex digits, digits only, letters, spaces
+            alpha = rng.choice(["0123456789abcdef", "0123456789ABCDEF", "0123456789", "abcdefghijklmnopqrstuvwxyz", " 09afAF"])
+            p["config"]["key"] = "".join(rng.choice(alpha) for _ in range(32)).encode().hex()
+            if rng.random() < 0.5:
+                p["config"]["token"] = "".join(rng.choice(alpha) for _ in range(64)).encode().hex()
+            p["config"]["cred_form"] = "bytes"
+            p["alt"] = rng.choice([{"name": "genuine"}, alt])
+        return p
     sp.add("random_keys", 8000 if tier == "quick" else 1_500_000, rnd)
     return sp
